@@ -1,4 +1,4 @@
-CONSTANTS D = {1, 2}  MaxArgs = 3  MaxCnt = 2  MaxOps = 3
+CONSTANTS D = {1, 2}  MaxArgs = 3  MaxCnt = 2  MaxOps = 3  Prefix <- NoPrefix  AllowNew = TRUE
 INIT Init
 NEXT Next
 INVARIANTS Export
